@@ -7,10 +7,20 @@
    rule-level tie add the panic sites (n - 1, n - k, arithmetic overflow: the harness builds
    the library with overflow checks).  No proofs here.
 
-   The [strict] parameter of the threshold rule selects the comparison of the satisfaction
-   loop: [false] is the code as written (`i <= k`), [true] the repaired rule (`i < k`). *)
+   Every rule takes a [fixes] record; [as_written] (all flags off) is the code that exists and
+   is what the tie compares with the implementation.  Each flag switches one candidate repair
+   on (notes/fixes/C09-*.diff); the theorems of Proofs/ExtProofs.v say which flags a bound needs. *)
 From Verif Require Export Sat.
 Local Open Scope N_scope.
+
+Record fixes := mkFixes {
+  fx_thresh : bool;   (* threshold: `i < k` instead of `i <= k` (top-k, not top-(k+1), satisfactions) *)
+  fx_dupif : bool;    (* cast_dupif: witness size + 2, count + 1 instead of size + 1, count + 2 *)
+  fx_unc : bool;      (* uncompressed keys: 66 bytes (push opcode + 65) instead of 65 *)
+  fx_andv : bool      (* and_v: dissat_data = sat(l) ++ dissat(r), as the satisfier computes it *)
+}.
+Definition as_written : fixes := mkFixes false false false false.
+Definition all_fixed : fixes := mkFixes true true true true.
 
 (* ------------------------------------------------------------------ TimelockInfo *)
 Record tlinfo := mkTL { tl_csv_h : bool; tl_csv_t : bool; tl_cltv_h : bool; tl_cltv_t : bool; tl_comb : bool }.
@@ -90,16 +100,17 @@ Record xctx := mkXctx {
   xc_pklen : key -> N             (* Ctx::pk_len(pk): 34/66 Bare+Legacy, 34 Segwitv0, 33 Tap *)
 }.
 
-Definition key_sig_bytes (schnorr unc : bool) : N * N :=
-  if schnorr then (33, 66) else if unc then (65, 73) else (34, 73).
+Definition unc_bytes (fx : fixes) : N := if fx_unc fx then 66 else 65.
+Definition key_sig_bytes (fx : fixes) (schnorr unc : bool) : N * N :=
+  if schnorr then (33, 66) else if unc then (unc_bytes fx, 73) else (34, 73).
 
-Definition ext_pk_k (schnorr unc : bool) : ext :=
-  let '(kbytes, sbytes) := key_sig_bytes schnorr unc in
+Definition ext_pk_k (fx : fixes) (schnorr unc : bool) : ext :=
+  let '(kbytes, sbytes) := key_sig_bytes fx schnorr unc in
   mkExt kbytes false 0 (Some (mkSD sbytes 1 sbytes 1 0)) (Some (mkSD 1 1 1 1 0)) tl_new 0.
 
 (* pk_h(Some pk) / pk_h(None): [unc] is false for RawPkH *)
-Definition ext_pk_h (schnorr unc : bool) : ext :=
-  let '(kbytes, sbytes) := key_sig_bytes schnorr unc in
+Definition ext_pk_h (fx : fixes) (schnorr unc : bool) : ext :=
+  let '(kbytes, sbytes) := key_sig_bytes fx schnorr unc in
   mkExt 24 false 3 (Some (mkSD (kbytes + sbytes) 2 (kbytes + sbytes) 2 0))
         (Some (mkSD (kbytes + 1) 2 (kbytes + 1) 2 0)) tl_new 0.
 
@@ -109,9 +120,9 @@ Definition num_cost (k n : N) : N :=
   end.
 
 (* multi / sortedmulti: [uncs] = is_uncompressed of each key, in order *)
-Definition ext_multi (k : N) (uncs : list bool) : ext :=
+Definition ext_multi (fx : fixes) (k : N) (uncs : list bool) : ext :=
   let n := N.of_nat (length uncs) in
-  mkExt (num_cost k n + fold_right (fun (u : bool) a => (if u then 65 else 34) + a) 0 uncs + 1)
+  mkExt (num_cost k n + fold_right (fun (u : bool) a => (if u then unc_bytes fx else 34) + a) 0 uncs + 1)
         true 1
         (Some (mkSD (1 + 73 * k) (k + 1) (1 + 73 * k) n n))
         (Some (mkSD (1 + k) (k + 1) (1 + k) n n)) tl_new 0.
@@ -139,9 +150,10 @@ Definition ext_cast_swap (x : ext) : ext :=
   mkExt (pk_cost x + 1) (has_free_verify x) (1 + static_ops x) (sat_data x) (dissat_data x) (timelock_info x) (tree_height x + 1).
 Definition ext_cast_check (x : ext) : ext :=
   mkExt (pk_cost x + 1) true (1 + static_ops x) (sat_data x) (dissat_data x) (timelock_info x) (tree_height x + 1).
-Definition ext_cast_dupif (x : ext) : ext :=
+Definition ext_cast_dupif (fx : fixes) (x : ext) : ext :=
   mkExt (pk_cost x + 3) false (3 + static_ops x)
-        (option_map (fun d => mkSD (sd_wsize d + 1) (sd_wcount d + 2) (sd_ssig d + 1) (N.max 1 (sd_estack d)) (sd_eops d)) (sat_data x))
+        (option_map (fun d => mkSD (sd_wsize d + (if fx_dupif fx then 2 else 1)) (sd_wcount d + (if fx_dupif fx then 1 else 2))
+                                   (sd_ssig d + 1) (N.max 1 (sd_estack d)) (sd_eops d)) (sat_data x))
         (Some (mkSD 1 1 1 1 0)) (timelock_info x) (tree_height x + 1).
 Definition b2n (b : bool) : N := if b then 1 else 0.
 Definition ext_cast_verify (x : ext) : ext :=
@@ -158,9 +170,10 @@ Definition ext_and_b (l r : ext) : ext :=
         (opt_zip_with sd_concat_b (dissat_data l) (dissat_data r))
         (tl_combine_and (timelock_info l) (timelock_info r))
         (1 + N.max (tree_height l) (tree_height r)).
-Definition ext_and_v (l r : ext) : ext :=
+Definition ext_and_v (fx : fixes) (l r : ext) : ext :=
   mkExt (pk_cost l + pk_cost r) (has_free_verify r) (static_ops l + static_ops r)
-        (opt_zip_with sd_concat_v (sat_data l) (sat_data r)) None
+        (opt_zip_with sd_concat_v (sat_data l) (sat_data r))
+        (if fx_andv fx then opt_zip_with sd_concat_v (sat_data l) (dissat_data r) else None)
         (tl_combine_and (timelock_info l) (timelock_info r))
         (1 + N.max (tree_height l) (tree_height r)).
 Definition ext_or_b (l r : ext) : ext :=
@@ -195,7 +208,7 @@ Definition ext_and_or (a b c : ext) : ext :=
         (opt_zip_with sd_concat_v (dissat_data a) (dissat_data c))
         (tl_combine_or (tl_combine_and (timelock_info a) (timelock_info b)) (timelock_info c))
         (1 + N.max (tree_height a) (N.max (tree_height b) (tree_height c))).
-Definition ext_cast_true (x : ext) : ext := ext_and_v x ext_true.
+Definition ext_cast_true (fx : fixes) (x : ext) : ext := ext_and_v fx x ext_true.
 Definition ext_cast_unlikely (x : ext) : ext := ext_or_i x ext_false.
 Definition ext_cast_likely (x : ext) : ext := ext_or_i ext_false x.
 
@@ -257,7 +270,8 @@ Definition th_sat_data (strict : bool) (k : N) (v0 : list sdpair) : option satda
 Definition th_dissat_data (subs : list ext) : option satdata :=
   fold_left (fun acc sub => opt_zip_with sd_concat_v acc (dissat_data sub)) subs (Some (mkSD 0 0 0 0 0)).
 
-Definition ext_threshold_gen (strict : bool) (k : N) (subs : list ext) : ext :=
+Definition ext_threshold (fx : fixes) (k : N) (subs : list ext) : ext :=
+  let strict := fx_thresh fx in
   let n := N.of_nat (length subs) in
   let pkc := fold_left (fun a s => a + pk_cost s) subs (1 + script_num_size k) in
   let ops := fold_left (fun a s => a + static_ops s) subs 0 in
@@ -267,44 +281,42 @@ Definition ext_threshold_gen (strict : bool) (k : N) (subs : list ext) : ext :=
         (th_dissat_data subs)
         (tl_combine_threshold k (map timelock_info subs))
         (h + 1).
-Definition ext_threshold := ext_threshold_gen false.        (* the code as written: i <= k *)
-Definition ext_threshold_fixed := ext_threshold_gen true.   (* notes/fixes/C09-thresh-topk.diff *)
 
 (* ---- ExtData::type_check applied bottom-up ---- *)
-Fixpoint ext_of_gen (strict : bool) (c : xctx) (m : ms) : ext :=
+Fixpoint ext_of_gen (fx : fixes) (c : xctx) (m : ms) : ext :=
   match m with
   | MTrue => ext_true
   | MFalse => ext_false
-  | MPkK k => ext_pk_k (xc_schnorr c) (xc_unc c k)
-  | MPkH k => ext_pk_h (xc_schnorr c) (xc_unc c k)
-  | MRawPkH _ => ext_pk_h (xc_schnorr c) false
-  | MMulti k ks | MSortedMulti k ks => ext_multi k (map (xc_unc c) ks)
+  | MPkK k => ext_pk_k fx (xc_schnorr c) (xc_unc c k)
+  | MPkH k => ext_pk_h fx (xc_schnorr c) (xc_unc c k)
+  | MRawPkH _ => ext_pk_h fx (xc_schnorr c) false
+  | MMulti k ks | MSortedMulti k ks => ext_multi fx k (map (xc_unc c) ks)
   | MMultiA k ks | MSortedMultiA k ks => ext_multi_a k (N.of_nat (length ks))
   | MAfter t => ext_after t
   | MOlder t => ext_older t
   | MSha256 _ | MHash256 _ => ext_hash32
   | MRipemd160 _ | MHash160 _ => ext_hash20
-  | MAlt x => ext_cast_alt (ext_of_gen strict c x)
-  | MSwap x => ext_cast_swap (ext_of_gen strict c x)
-  | MCheck x => ext_cast_check (ext_of_gen strict c x)
-  | MDupIf x => ext_cast_dupif (ext_of_gen strict c x)
-  | MVerify x => ext_cast_verify (ext_of_gen strict c x)
-  | MNonZero x => ext_cast_nonzero (ext_of_gen strict c x)
-  | MZeroNotEqual x => ext_cast_zeronotequal (ext_of_gen strict c x)
-  | MAndB l r => ext_and_b (ext_of_gen strict c l) (ext_of_gen strict c r)
-  | MAndV l r => ext_and_v (ext_of_gen strict c l) (ext_of_gen strict c r)
-  | MOrB l r => ext_or_b (ext_of_gen strict c l) (ext_of_gen strict c r)
-  | MOrD l r => ext_or_d (ext_of_gen strict c l) (ext_of_gen strict c r)
-  | MOrC l r => ext_or_c (ext_of_gen strict c l) (ext_of_gen strict c r)
-  | MOrI l r => ext_or_i (ext_of_gen strict c l) (ext_of_gen strict c r)
-  | MAndOr x y z => ext_and_or (ext_of_gen strict c x) (ext_of_gen strict c y) (ext_of_gen strict c z)
+  | MAlt x => ext_cast_alt (ext_of_gen fx c x)
+  | MSwap x => ext_cast_swap (ext_of_gen fx c x)
+  | MCheck x => ext_cast_check (ext_of_gen fx c x)
+  | MDupIf x => ext_cast_dupif fx (ext_of_gen fx c x)
+  | MVerify x => ext_cast_verify (ext_of_gen fx c x)
+  | MNonZero x => ext_cast_nonzero (ext_of_gen fx c x)
+  | MZeroNotEqual x => ext_cast_zeronotequal (ext_of_gen fx c x)
+  | MAndB l r => ext_and_b (ext_of_gen fx c l) (ext_of_gen fx c r)
+  | MAndV l r => ext_and_v fx (ext_of_gen fx c l) (ext_of_gen fx c r)
+  | MOrB l r => ext_or_b (ext_of_gen fx c l) (ext_of_gen fx c r)
+  | MOrD l r => ext_or_d (ext_of_gen fx c l) (ext_of_gen fx c r)
+  | MOrC l r => ext_or_c (ext_of_gen fx c l) (ext_of_gen fx c r)
+  | MOrI l r => ext_or_i (ext_of_gen fx c l) (ext_of_gen fx c r)
+  | MAndOr x y z => ext_and_or (ext_of_gen fx c x) (ext_of_gen fx c y) (ext_of_gen fx c z)
   | MThresh k xs =>
-    ext_threshold_gen strict k
+    ext_threshold fx k
       ((fix go (l : list ms) : list ext :=
-          match l with [] => [] | x :: r => ext_of_gen strict c x :: go r end) xs)
+          match l with [] => [] | x :: r => ext_of_gen fx c x :: go r end) xs)
   end.
-Definition ext_of := ext_of_gen false.
-Definition ext_of_fixed := ext_of_gen true.
+Definition ext_of := ext_of_gen as_written.
+Definition ext_of_fixed := ext_of_gen all_fixed.
 
 (* ExtData::sat_op_count *)
 Definition sat_op_count (e : ext) : option N := option_map (fun d => static_ops e + sd_eops d) (sat_data e).
@@ -312,33 +324,33 @@ Definition sat_op_count (e : ext) : option N := option_map (fun d => static_ops 
 (* ------------------------------------------------------------------ Miniscript::script_size
    (pre-order sum of per-node costs; the Verify cost reads the child's ext) *)
 Definition sum_map {A} (f : A -> N) (l : list A) : N := fold_right (fun x a => f x + a) 0 l.
-Fixpoint script_size_gen (strict : bool) (c : xctx) (m : ms) : N :=
+Fixpoint script_size_gen (fx : fixes) (c : xctx) (m : ms) : N :=
   match m with
-  | MAndV x y => 0 + script_size_gen strict c x + script_size_gen strict c y
+  | MAndV x y => 0 + script_size_gen fx c x + script_size_gen fx c y
   | MTrue | MFalse => 1
-  | MSwap x | MCheck x | MZeroNotEqual x => 1 + script_size_gen strict c x
-  | MAndB x y | MOrB x y => 1 + script_size_gen strict c x + script_size_gen strict c y
-  | MAlt x => 2 + script_size_gen strict c x
-  | MOrC x y => 2 + script_size_gen strict c x + script_size_gen strict c y
-  | MDupIf x => 3 + script_size_gen strict c x
-  | MOrD x y | MOrI x y => 3 + script_size_gen strict c x + script_size_gen strict c y
-  | MAndOr x y z => 3 + script_size_gen strict c x + script_size_gen strict c y + script_size_gen strict c z
-  | MNonZero x => 4 + script_size_gen strict c x
+  | MSwap x | MCheck x | MZeroNotEqual x => 1 + script_size_gen fx c x
+  | MAndB x y | MOrB x y => 1 + script_size_gen fx c x + script_size_gen fx c y
+  | MAlt x => 2 + script_size_gen fx c x
+  | MOrC x y => 2 + script_size_gen fx c x + script_size_gen fx c y
+  | MDupIf x => 3 + script_size_gen fx c x
+  | MOrD x y | MOrI x y => 3 + script_size_gen fx c x + script_size_gen fx c y
+  | MAndOr x y z => 3 + script_size_gen fx c x + script_size_gen fx c y + script_size_gen fx c z
+  | MNonZero x => 4 + script_size_gen fx c x
   | MPkH _ | MRawPkH _ => 24
   | MRipemd160 _ | MHash160 _ => 21 + 6
   | MSha256 _ | MHash256 _ => 33 + 6
   | MPkK k => xc_pklen c k
   | MAfter t | MOlder t => script_num_size t + 1
-  | MVerify x => b2n (negb (has_free_verify (ext_of_gen strict c x))) + script_size_gen strict c x
+  | MVerify x => b2n (negb (has_free_verify (ext_of_gen fx c x))) + script_size_gen fx c x
   | MThresh k xs =>
     (script_num_size k + 1 + N.of_nat (length xs) - 1)
-    + (fix go (l : list ms) : N := match l with [] => 0 | x :: r => script_size_gen strict c x + go r end) xs
+    + (fix go (l : list ms) : N := match l with [] => 0 | x :: r => script_size_gen fx c x + go r end) xs
   | MMulti k ks | MSortedMulti k ks =>
     script_num_size k + 1 + script_num_size (N.of_nat (length ks)) + sum_map (xc_pklen c) ks
   | MMultiA k ks | MSortedMultiA k ks =>
     script_num_size k + 1 + sum_map (xc_pklen c) ks + N.of_nat (length ks)
   end.
-Definition script_size := script_size_gen false.
+Definition script_size := script_size_gen as_written.
 
 (* Miniscript::max_satisfaction_witness_elements / Ctx::max_satisfaction_size *)
 Definition max_sat_witness_elements (e : ext) : option N := option_map (fun d => sd_wcount d + 1) (sat_data e).
@@ -380,9 +392,9 @@ Definition tr_tree_weight (leaves : list (N * N * option (N * N))) : option N :=
 
 Inductive dkind := DBare | DSh | DWsh | DShWsh.
 (* single-miniscript descriptors, from the miniscript's figures *)
-Definition desc_weight (strict : bool) (dk : dkind) (c : xctx) (m : ms) : option N :=
-  let e := ext_of_gen strict c m in
-  let ssz := script_size_gen strict c m in
+Definition desc_weight (fx : fixes) (dk : dkind) (c : xctx) (m : ms) : option N :=
+  let e := ext_of_gen fx c m in
+  let ssz := script_size_gen fx c m in
   match dk with
   | DBare => option_map bare_weight (max_sat_size true e)
   | DSh => option_map (sh_ms_weight ssz) (max_sat_size true e)
@@ -427,5 +439,65 @@ Definition ext_fits (e : ext) : bool :=
 Definition checked (e : ext) : xout := if ext_fits e then XOk e else XPanic.
 Definition ext_multi_a_o (k n : N) : xout :=
   if (n =? 0) || (n <? k) then XPanic else checked (ext_multi_a k n).
+(* `pk_cost + n - 1`: the intermediate sum is checked as well *)
 Definition ext_threshold_o (k : N) (subs : list ext) : xout :=
-  match subs with [] => XPanic | _ => checked (ext_threshold k subs) end.
+  match subs with
+  | [] => XPanic
+  | _ =>
+    let e := ext_threshold as_written k subs in
+    if USIZE_MAX1 <=? pk_cost e + 1 then XPanic else checked e
+  end.
+
+(* ------------------------------------------------------------------ side conditions of the bounds
+   (computable; evaluated on every generated script by the tie, see Tables/ExtCasesCheck.v) *)
+Definition dtracked (e : ext) : bool := match dissat_data e with Some _ => true | None => false end.
+
+(* (nodis, nosat): syntactic guarantees that the satisfier model's dissatisfaction
+   (resp. satisfaction) of the node is never a stack; sound (Proofs/ExtProofs.v: nostk_sound), not complete *)
+Fixpoint nostk (m : ms) : bool * bool :=
+  match m with
+  | MTrue => (true, false)
+  | MFalse => (false, true)
+  | MRawPkH _ => (true, true)
+  | MAfter _ | MOlder _ => (true, false)
+  | MAlt x | MSwap x | MCheck x | MZeroNotEqual x => nostk x
+  | MDupIf x | MNonZero x => (false, snd (nostk x))
+  | MVerify x => (true, snd (nostk x))
+  | MAndB l r => (fst (nostk l) || fst (nostk r), snd (nostk l) || snd (nostk r))
+  | MAndV l r => (snd (nostk l) || fst (nostk r), snd (nostk l) || snd (nostk r))
+  | MAndOr a b c =>
+    (fst (nostk a) || fst (nostk c),
+     (snd (nostk a) || snd (nostk b)) && (fst (nostk a) || snd (nostk c)))
+  | MOrB l r =>
+    (fst (nostk l) || fst (nostk r),
+     (fst (nostk l) || snd (nostk r)) && (snd (nostk l) || fst (nostk r)))
+  | MOrC l r => (true, snd (nostk l) && (fst (nostk l) || snd (nostk r)))
+  | MOrD l r => (fst (nostk l) || fst (nostk r), snd (nostk l) && (fst (nostk l) || snd (nostk r)))
+  | MOrI l r => (fst (nostk l) && fst (nostk r), snd (nostk l) && snd (nostk r))
+  | MThresh _ xs =>
+    ((fix go (l : list ms) : bool := match l with [] => false | x :: r => fst (nostk x) || go r end) xs, false)
+  | _ => (false, false)
+  end.
+
+(* [ext_safe fx c m]: every construct whose rule needs a repair is either repaired by [fx] or
+   absent / harmless in [m]; children whose dissatisfaction is used by a parent's satisfaction
+   have a dissatisfaction figure (the type system's `d`); thresh has k <= n. *)
+Fixpoint ext_safe (fx : fixes) (c : xctx) (m : ms) : bool :=
+  let dt x := dtracked (ext_of_gen fx c x) in
+  match m with
+  | MPkH k => fx_unc fx || xc_schnorr c || negb (xc_unc c k)
+  | MAlt x | MSwap x | MCheck x | MVerify x | MNonZero x | MZeroNotEqual x => ext_safe fx c x
+  | MDupIf x => fx_dupif fx && ext_safe fx c x
+  | MAndB l r | MAndV l r => ext_safe fx c l && ext_safe fx c r
+  | MAndOr x y z => dt x && ext_safe fx c x && ext_safe fx c y && ext_safe fx c z
+  | MOrB l r => dt l && dt r && ext_safe fx c l && ext_safe fx c r
+  | MOrD l r | MOrC l r => dt l && ext_safe fx c l && ext_safe fx c r
+  | MOrI l r =>
+    ((negb (dt l) && negb (dt r)) || ((dt l || fst (nostk l)) && (dt r || fst (nostk r))))
+    && ext_safe fx c l && ext_safe fx c r
+  | MThresh k xs =>
+    (k <=? N.of_nat (length xs)) && (fx_thresh fx || (k =? N.of_nat (length xs)))
+    && (fix go (l : list ms) : bool :=
+          match l with [] => true | x :: r => dt x && ext_safe fx c x && go r end) xs
+  | _ => true
+  end.
